@@ -444,14 +444,18 @@ class GriddedPSFModel(ModelGridPlotMixin, Fittable2DModel):
         yidx = np.searchsorted(self._ygrid, y) - 1
 
         # Clip the indices to valid ranges
-        xidx = np.clip(xidx, 0, len(self._xgrid) - 2)
-        yidx = np.clip(yidx, 0, len(self._ygrid) - 2)
+        # (a grid with a single column and/or row has only one point
+        # along that axis)
+        xidx = np.clip(xidx, 0, max(len(self._xgrid) - 2, 0))
+        yidx = np.clip(yidx, 0, max(len(self._ygrid) - 2, 0))
+        xidx1 = min(xidx + 1, len(self._xgrid) - 1)
+        yidx1 = min(yidx + 1, len(self._ygrid) - 1)
 
         # Find the four bounding points in the sorted grid
         # (x0, y0) is the lower-left corner of the grid
         # (x1, y1) is the upper-right corner of the grid
-        x0, x1 = self._xgrid[xidx], self._xgrid[xidx + 1]
-        y0, y1 = self._ygrid[yidx], self._ygrid[yidx + 1]
+        x0, x1 = self._xgrid[xidx], self._xgrid[xidx1]
+        y0, y1 = self._ygrid[yidx], self._ygrid[yidx1]
 
         # Find the indices of these points in grid_xypos
         xcoords, ycoords = self.grid_xypos.T
@@ -490,6 +494,16 @@ class GriddedPSFModel(ModelGridPlotMixin, Fittable2DModel):
 
         xi = np.clip(xi, x0, x1)
         yi = np.clip(yi, y0, y1)
+
+        if x0 == x1 or y0 == y1:
+            # single column and/or row of grid points: interpolate
+            # only along the axis that has more than one point
+            wx = ((1.0, 0.0) if x0 == x1
+                  else ((x1 - xi) / (x1 - x0), (xi - x0) / (x1 - x0)))
+            wy = ((1.0, 0.0) if y0 == y1
+                  else ((y1 - yi) / (y1 - y0), (yi - y0) / (y1 - y0)))
+            return np.array([wx[0] * wy[0], wx[1] * wy[0],
+                             wx[0] * wy[1], wx[1] * wy[1]])
 
         norm = (x1 - x0) * (y1 - y0)
         # lower-left, lower-right, upper-left, upper-right
